@@ -4,6 +4,7 @@ import Hgxv.Model.C03Spec
 import Hgxv.Model.C03Full
 import Hgxv.Model.C03Kind
 import Hgxv.Model.C03Ext
+import Hgxv.Model.C03Raw
 /-! Line protocol for C03 (see `harness/c03.py`, functions `op_lines` / `q_line`).  The driver only parses a line into a
 `C03.Op`, calls `C03.step`, and prints the outcome in the canonical (sorted) rendering of the harness.
 
@@ -300,6 +301,25 @@ def xLine (st : FState × SpecState) (toks : List String) : (FState × SpecState
         | none => (st, out)
       | _ => (st, "bad-op")
     | _, _ => (st, "bad-op")
+  | "raw" :: i :: rest =>
+    -- second extension round: `raw i el echo|drop j`, `raw i adj echo|drop j|rev j` - `set_edge_list` / `set_adj_dict`
+    -- (`rstep` of Model/C03Raw.lean) with the argument built from the table the object holds
+    match nat? i with
+    | none => (st, "bad-op")
+    | some i =>
+      let cur := (AL.get? st.1 i).map (·.base)
+      let op : Option ROp := match rest with
+        | ["el", "echo"] => cur.map (fun s => ROp.setEdgeList i (edgeTable s))
+        | ["adj", "echo"] => cur.map (fun s => ROp.setAdjDict i (adjTable s))
+        | ["el", "drop", j] => do pure (ROp.setEdgeList i (dropAt (edgeTable (← cur)) (← nat? j)))
+        | ["adj", "drop", j] => do pure (ROp.setAdjDict i (dropAt (adjTable (← cur)) (← nat? j)))
+        | ["adj", "rev", j] => do pure (ROp.setAdjDict i (revAt (adjTable (← cur)) (← nat? j)))
+        | _ => none
+      match op with
+      | none => (st, "bad-op")
+      | some op =>
+        let r := rstep st.1 op
+        ((r.1, st.2), match r.2 with | .out .ok => "ok" | _ => "rej")
   | _ => stepLine st toks
 
 def main : IO Unit := Wire.run xLine ([], [])
